@@ -99,9 +99,11 @@ CLAIMED.update({
               "Lean 4 proof about the packing model + correspondence", "I.2 C09, II §3 C09"),
     "C10": _c("The real function on the local filesystem through a logging fsspec wrapper: whole directory tree, returned frame and independent read "
               "for three tempdir modes x empty output partitions x prior datasets; Lean model of the renumbering moves (Props/C10.lean).",
-              STD_NOTE + "Partial: the protocol model covers the renumbering step (proved contiguous, order preserving, nothing overwritten); directory "
-              "creation, metadata files and overwrite are compared on the real filesystem, not proved; parquet encoding is pyarrow's.",
-              "Lean 4 proof about the renumbering + filesystem-level trace inspection", "I.2 C10, II §3 C10"),
+              STD_NOTE + "The fault-free protocol is modelled on the directory tree (Model/PackProto.lean) and proved to end, for every number of "
+              "partitions, pattern of empty cells, temp-dir mode, prior dataset with overwrite and every order of the concatenation tasks, with "
+              "exactly the part files 0..m-1 and the two metadata files (C10_final_tree); the harness reads cells, task order and moves off the "
+              "call log and compares the model's moves and final tree with the real ones. Parquet encoding and read-back are pyarrow's (observed).",
+              "Lean 4 proof about the filesystem protocol (final tree, renumbering) + trace correspondence on the real filesystem", "I.2 C10, II §3 C10"),
     "C11": _c("Lean model of what spatialpandas contributes (dtype-name printer/parser over the registry regenerated from the source, column "
               "projection) with the theorems of Props/C11.lean; real round trips for all kinds / subtypes / index kinds / derived arrays / partitions / "
               "projections / lists and globs, with equal-valued frames of different subtype alive in the process.",
